@@ -9,6 +9,49 @@ use serde::{
 
 use super::Call;
 
+/// A member name: borrowed from the input where possible, copied where the input spells it with an
+/// escape sequence (or the deserializer can not lend it).
+enum Key<'de> {
+    Borrowed(&'de str),
+    Owned(alloc::string::String),
+}
+
+impl Key<'_> {
+    fn as_str(&self) -> &str {
+        match self {
+            Key::Borrowed(s) => s,
+            Key::Owned(s) => s,
+        }
+    }
+}
+
+impl<'de> Deserialize<'de> for Key<'de> {
+    fn deserialize<D>(deserializer: D) -> Result<Self, D::Error>
+    where
+        D: Deserializer<'de>,
+    {
+        struct KeyVisitor;
+
+        impl<'de> Visitor<'de> for KeyVisitor {
+            type Value = Key<'de>;
+
+            fn expecting(&self, f: &mut fmt::Formatter<'_>) -> fmt::Result {
+                write!(f, "a member name")
+            }
+
+            fn visit_borrowed_str<E: de::Error>(self, v: &'de str) -> Result<Self::Value, E> {
+                Ok(Key::Borrowed(v))
+            }
+
+            fn visit_str<E: de::Error>(self, v: &str) -> Result<Self::Value, E> {
+                Ok(Key::Owned(v.into()))
+            }
+        }
+
+        deserializer.deserialize_str(KeyVisitor)
+    }
+}
+
 impl<'de, M> Deserialize<'de> for Call<M>
 where
     M: Deserialize<'de>,
@@ -58,8 +101,8 @@ where
                     where
                         K: DeserializeSeed<'de>,
                     {
-                        while let Some(key) = self.inner.next_key::<&str>()? {
-                            match key {
+                        while let Some(key) = self.inner.next_key::<Key<'de>>()? {
+                            match key.as_str() {
                                 "oneway" => {
                                     let v = self.inner.next_value()?;
                                     self.oneway.set(Some(v));
